@@ -87,7 +87,8 @@ func vScenarioC19(rc *runCtx) {
 			userCancels = false
 		}
 	}
-	rc.res.ClassKey = fmt.Sprintf("up=%v helper=%s server=%s veto=%d ctrlc=%d files=%v cancel=%v", upload, helperKind, serverKind, veto, ctrlC, haveFiles, userCancels)
+	emptySelection := upload && !haveFiles && !userCancels && tp.Bool("c19.emptyselection", 500)
+	rc.res.ClassKey = fmt.Sprintf("up=%v helper=%s server=%s veto=%d ctrlc=%d files=%v cancel=%v empty=%v", upload, helperKind, serverKind, veto, ctrlC, haveFiles, userCancels, emptySelection)
 	rc.res.Scenario["case"] = rc.res.ClassKey
 
 	kbd, term := w.NewLink("kbd"), w.NewLink("term")
@@ -185,6 +186,13 @@ func vScenarioC19(rc *runCtx) {
 		if upload && haveFiles {
 			filter.OneTimeUpload([]string{filepath.Join(src, "up.bin")})
 		}
+		if emptySelection {
+			// the embedding program hands over an empty selection to upload with rz: the file list that reaches
+			// the zmodem session is empty, without an error
+			filter.SetDragFileUploadCommand("rz")
+			filter.UploadFiles(nil)
+			rc.fault("empty-selection-uploaded")
+		}
 		ready = true
 	})
 	x := &xferWorld{rc: rc, w: w, o: &xferOpts{}}
@@ -205,6 +213,16 @@ func vScenarioC19(rc *runCtx) {
 	var lastServerOut time.Duration
 	serverDone := false
 	w.Go("server", nil, func() {
+		if emptySelection {
+			// the remote rz only starts once the client has typed the command
+			for k := 0; k < 1000; k++ {
+				if u, _, _ := up.Snapshot(); bytes.Contains(u, []byte("rz\r")) {
+					break
+				}
+				verifsim.Sleep(10 * time.Millisecond)
+			}
+			verifsim.Sleep(20 * time.Millisecond)
+		}
 		down.Write([]byte("$ rz\r\n"))
 		down.Write(headerChunk)
 		lastServerOut = w.Now()
